@@ -25,6 +25,27 @@ EVID = os.path.join(ROOT, "evidence")
 ORACLES = os.path.join(ROOT, "oracles")
 PY = sys.executable
 
+# Validation of the monitors against a scratch copy of the library (seeded changes): VERIF_REPO=<worktree> builds a
+# private copy of the harness against that tree with its own target / work / evidence directories, so /repo and the
+# registered evidence are never touched. Registered commands never set it.
+ALT = os.environ.get("VERIF_REPO")
+if ALT and os.path.realpath(ALT) != "/repo":
+    import hashlib
+    _tag = hashlib.md5(os.path.realpath(ALT).encode()).hexdigest()[:8]
+    _base = os.path.join(ROOT, "work", "alt-" + _tag)
+    os.makedirs(_base, exist_ok=True)
+    _h = os.path.join(_base, "harness")
+    subprocess.run(["rsync", "-a", "--delete", "--exclude", "target", HARNESS + "/", _h + "/"], check=True)
+    _ct = open(os.path.join(_h, "Cargo.toml")).read().replace('path = "/repo"', 'path = "%s"' % os.path.realpath(ALT))
+    open(os.path.join(_h, "Cargo.toml"), "w").write(_ct)
+    HARNESS = _h
+    TARGET = os.path.join(_base, "target")
+    WORK = os.path.join(_base, "work")
+    REPLAY = os.path.join(_base, "replay")
+    EVID = os.path.join(_base, "evidence")
+else:
+    ALT = None
+
 sys.path.insert(0, ROOT)
 from props import PROPS  # noqa: E402
 
